@@ -205,6 +205,58 @@ def unit_identical(model, n):
     return recs
 
 
+def unit_rate_alone(model, sizes):
+    """first/last-alone on the result of the real rate() for symbolic rank values (every weak order a path,
+    unsorted presentations included): the posterior handed back *at the winner's position* must not be below
+    that player's prior, and the one at the loser's position not above"""
+    from .. import extract as ex
+    from ..symrt import KFLOAT, KINT, call, explore
+    n = len(sizes)
+    S = ex.Scratch(model)
+    game.stub_tm_real(S)
+    game.stub_phi_real(S)
+    shape = f"sizes={sizes},symbolic ranks"
+    fn = f"{model}.rate"
+    ctx = Ctx("R", feas_timeout_ms=300)
+    recs = []
+    np_ = [0]
+
+    def run(ctx):
+        m, params = game.mk_model(ctx, S)
+        ctx.assume(term(params["kappa"]) <= 1)
+        teams = game.mk_teams(ctx, S, sizes)
+        prior = [[p.mu for p in t] for t in teams]
+        r = [ctx.number(f"r{i}", kinds=(KINT, KFLOAT)) for i in range(n)]
+        out = call(m.rate, teams, ranks=list(r))
+        np_[0] += 1
+        rp = _rp(model, sizes, None)
+        if out[0] != "return":
+            recs.append(driver.rec(f"C05/{model}/rate/returns@{shape}", "refuted", "explorer", 0, fn=fn, shape=shape, replay=rp))
+            return
+        first = [i for i in range(n) if all(bool(r[i] < r[q]) for q in range(n) if q != i)]
+        last = [i for i in range(n) if all(bool(r[i] > r[q]) for q in range(n) if q != i)]
+        if not first and not last:
+            return
+        P = field.Prover(ctx.hyps(), list(ctx.facts.values()), timeout_ms=5000)
+        from ..tactics import check_sat, model_to_dict
+        from .util import enc_model
+        zero = z3.RealVal(0)
+        for i, nm in [(i, "first-alone") for i in first] + [(i, "last-alone") for i in last]:
+            ok = True
+            for j in range(sizes[i]):
+                d = term(out[1][i][j].mu) - term(prior[i][j])
+                res = P.prove_ge(d, zero) if nm == "first-alone" else P.prove_ge(zero, d)
+                ok = ok and res[0] == "discharged"
+            if not ok:
+                rr, _, mdl, _ = check_sat(ctx.hyps(), timeout_ms=5000, use_cvc5=False, nlsat=False)
+                md = model_to_dict(mdl) if mdl is not None else {}
+                rp = dict(rp, ranks=[enc_model(md, f"r{k}") for k in range(n)])
+            recs.append(driver.rec(f"C05/{model}/rate/{nm}@{shape},path{np_[0]}", "discharged" if ok else "open", "field-sign+z3", 0,
+                                   fn=fn, shape=shape, mode="R", replay=None if ok else rp))
+    explore(ctx, run, max_paths=500)
+    return recs
+
+
 def unit_lemmas():
     mu, s2, S, om = z3.Reals("mu sigma2 s omega")
 
@@ -231,6 +283,8 @@ def units(tier):
                 us.append(("unit_compute", (m, sizes)))
         for sizes in ([(1, 1), (2, 1), (1, 2), (2, 2)] + ([(3, 1), (1, 3), (3, 3), (8, 1)] if tier == "thorough" else [])):
             us.append(("unit_two_team", (m, sizes)))
+        for sizes in ([(1, 1, 1)] if tier == "quick" else [(1, 1, 1), (2, 1, 1), (1, 1, 1, 1)]):
+            us.append(("unit_rate_alone", (m, sizes)))
         for n in range(2, (4 if tier == "quick" else 6) + 1):
             if m in ("PlackettLuce", "BradleyTerryFull", "ThurstoneMostellerFull"):
                 us.append(("unit_swap_up", (m, n)))
